@@ -155,6 +155,11 @@ type Exec struct {
 	res       *JobResult
 	params    map[string]int
 	want      []string // obligation prefixes selected (vWant)
+	// redirect: calls of library methods replaced by harness summaries (C17: the simulation's
+	// event loop is executed against the library's verified contract instead of its code);
+	// key "DBFT.<Method>", value = harness function in the entry package
+	redirect map[string]string
+	entryPkg *ssa.Package
 	trace     bool
 	merge     bool
 	pathLimit int
@@ -1471,6 +1476,23 @@ func (x *Exec) call(st *State, i *ssa.Call) {
 		f.env[i] = x.stubResultSig(st, c.Signature(), c.Method.Name())
 		f.ip++
 		return
+	}
+	if len(x.redirect) > 0 {
+		full := fv.fn.String()
+		if strings.Contains(full, "nspcc-dev/dbft.DBFT[") {
+			base := fv.fn.Name()
+			if k := strings.Index(base, "["); k > 0 {
+				base = base[:k] // instantiated generic: "Start[...Uint256]"
+			}
+			if h, ok := x.redirect["DBFT."+base]; ok && strings.Contains(full, ")."+base) {
+				hf := x.entryPkg.Func(h)
+				if hf == nil {
+					panic(internalErr{"redirect target missing: " + h})
+				}
+				x.res.Funcs["REDIRECTED "+full+" -> "+h]++
+				fv = FuncV{fn: hf}
+			}
+		}
 	}
 	if r, ok := x.intrinsic(st, fv.fn, args, i); ok {
 		f.env[i] = r
